@@ -11,7 +11,7 @@ from .common import import_repo, Machinery
 from . import wire_ref as W, cmdset
 
 import_repo()
-from pynetdicom2 import dimsemessages as dm, asceprovider, dsutils, fsm, pdu, applicationentity  # noqa: E402
+from pynetdicom2 import dimsemessages as dm, asceprovider, dsutils, fsm, pdu, applicationentity, sopclass  # noqa: E402
 import pydicom  # noqa: E402
 from pydicom import uid as pyuid  # noqa: E402
 
